@@ -33,8 +33,8 @@ def slices(tier):
         Slice("cond", [F, G], {"lt", "ge", "eq", "ne", "and", "or", "not", "cond", "max", "min", "sign"}, 2, lits=[L["zero"]]),
         Slice("cond3", [F, G], {"lt", "eq", "and", "not", "cond"}, 3),
         Slice("zeros", [F, U], {"mul", "add", "index", "as_tensor", "dot", "inner", "outer", "abs", "conj"}, 2, lits=[L["zero"]], zeros=[(2,), (2, 2)], idx=(10, 11), small=True),
-        Slice("index-deep", [U, A, T3], {"index", "as_tensor", "mul", "add", "list", "neg"}, 6, idx=(10, 11, 12), maxrank=3, simulate=400 if q else 20000, depth=7),
-        Slice("mixed-deep", [F, G, U, V, A], {"add", "sub", "mul", "div", "index", "as_tensor", "list", "dot", "inner", "outer", "transpose", "tr", "abs", "neg", "cond", "lt", "max"}, 7, lits=[L["one"], L["two"], L["zero"], L["half"]], zeros=[(2,)], idx=(10, 11), simulate=400 if q else 20000, depth=8),
+        Slice("index-deep", [U, A, T3], {"index", "as_tensor", "mul", "add", "list", "neg"}, 6, idx=(10, 11, 12), maxrank=3, simulate=8 if q else 160, depth=7),
+        Slice("mixed-deep", [F, G, U, V, A], {"add", "sub", "mul", "div", "index", "as_tensor", "list", "dot", "inner", "outer", "transpose", "tr", "abs", "neg", "cond", "lt", "max"}, 7, lits=[L["one"], L["two"], L["zero"], L["half"]], zeros=[(2,)], idx=(10, 11), simulate=8 if q else 160, depth=8),
     ]
     if not q:
         out += [
